@@ -102,12 +102,18 @@ theorem lookupLoop_branch_ge (lon lat : Float) (r : Int) : ∀ (samples : List (
               cases h
               exact Or.inr (Int.le_refl _)
             · rewrite [if_neg hpos] at h
-              rcases ih _ _ res h with h1 | h1
-              · exact Or.inl h1
-              · refine Or.inr ?_
-                rewrite [List.length_append] at h1
-                simp only [List.length_cons, List.length_nil] at h1
-                omega
+              cases ho : cellDistanceOutside est lon lat with
+              | err e => rewrite [ho] at h; cases h
+              | panic k => rewrite [ho] at h; cases h
+              | ok o =>
+                rewrite [ho] at h
+                simp only [Outcome.bind_ok] at h
+                rcases ih _ _ res h with h1 | h1
+                · exact Or.inl h1
+                · refine Or.inr ?_
+                  rewrite [List.length_append] at h1
+                  simp only [List.length_cons, List.length_nil] at h1
+                  omega
 
 /-- **T2 `lookup_direct_hit_is_roundtrip`.**  If the lookup answers `⟨id, 0⟩` (branch 0) then `2 ≤ r ≤ 29`, the estimate
 of the query point itself is a cell `c` of resolution `r` with a real face and quintant and a position that fits, the
@@ -152,10 +158,16 @@ theorem lookup_direct_hit_is_roundtrip (lon lat : Float) (r : Int) (id : Nat)
       cases h
       exact ⟨est, d, he, hest, hkey, hd, hpos⟩
     · rewrite [if_neg hpos] at h
-      rcases lookupLoop_branch_ge lon lat r _ _ _ _ h with h1 | h1
-      · simp only at h1; omega
-      · simp only [List.nil_append, List.length_cons, List.length_nil] at h1
-        omega
+      cases ho : cellDistanceOutside est lon lat with
+      | err e => rewrite [ho] at h; cases h
+      | panic k => rewrite [ho] at h; cases h
+      | ok o =>
+        rewrite [ho] at h
+        simp only [Outcome.bind_ok] at h
+        rcases lookupLoop_branch_ge lon lat r _ _ _ _ h with h1 | h1
+        · simp only at h1; omega
+        · simp only [List.nil_append, List.length_cons, List.length_nil] at h1
+          omega
 
 /-- **Converse (`roundtrip_of_direct_hit`).**  For a curve resolution: if the estimate of the point is `c` and the
 containment test of `c` accepts the point, then the lookup returns the encoding of `c`, through branch 0.  Applied to the
